@@ -1,11 +1,11 @@
 /-
   Fca.Model.MVContext — `MVContext` (`fcapy/mvcontext/mvcontext.py`), the many-valued branch of
-  `close_by_one`, `close_by_one_objectwise`, `close_by_one_objectwise_fbarray` as used on the binarised
-  context (`fcapy/algorithms/concept_construction.py`) and `PatternConcept.from_objects`
+  `close_by_one`, `close_by_one_objectwise` (both run the worklist machine of `Model/CbO`; the binarised
+  context is mined by `cboFbarray`, property C02) (`fcapy/algorithms/concept_construction.py`) and `PatternConcept.from_objects`
   (`fcapy/lattice/pattern_concept.py`).  Property C14.
 -/
 import Fca.Model.MVPS
-import Fca.Model.Context
+import Fca.Model.CbO
 namespace Fca.MV
 
 /-- a many-valued context: its pattern structures (one per attribute, in attribute order), the number of
@@ -87,119 +87,49 @@ def fromObjects (K : MVCtx) (objs : List Nat) (isExtent : Bool) : Except PyErr P
     | .error e => .error e
     | .ok e => .ok ⟨e, intent⟩
 
-/-- `range(lo, hi)` -/
-def rangeFrom (lo hi : Nat) : List Nat := (List.range (hi - lo)).map (· + lo)
+/-! ### close_by_one_objectwise (on descriptions)
 
-/-! ### close_by_one_objectwise (on descriptions) -/
+  The `while combinations_to_check:` loop is the worklist machine `cboLoop` of `Model/CbO` (variant
+  `.objectwise`: `extents_i_found` is tested after the completion and never filled), run with the context's
+  own `intention_i` and `extension_i(…, base_objects_i=…)`. -/
 
-/-- one iteration of the `while combinations_to_check:` loop for the popped combination:
-    `(concept yielded or none, new combinations in the order they are appended)` -/
-def cboObjStep (K : MVCtx) (comb : List Nat) : Except PyErr (Option PC × List (List Nat)) :=
-  let intent := K.intentionI comb
-  let canon : Except PyErr Bool :=
-    match comb.getLast? with
-    | none => .ok true
-    | some last =>
-      -- objects_lexicographic = [g_i for g_i in range(comb_i[-1]) if g_i not in comb_i_set]
-      match K.extensionI intent (some ((List.range last).filter fun g => !comb.contains g)) with
-      | .error e => .error e
-      | .ok el => .ok el.isEmpty
-  match canon with
-  | .error e => .error e
-  | .ok false => .ok (none, [])
-  | .ok true =>
-    let lo := match comb.getLast? with | none => 0 | some l => l + 1
-    let base := (rangeFrom lo K.nObjects).filter fun g => !comb.contains g
-    match K.extensionI intent (some base) with
-    | .error e => .error e
-    | .ok rest =>
-      let extent := comb ++ rest
-      -- `if extent_i in extents_i_found: continue`: the set is never added to in the code, so the
-      -- test never fires; kept out of the model for that reason.
-      match K.fromObjects extent true with
-      | .error e => .error e
-      | .ok pc =>
-        -- possible_new_objects = range(n_objs - 1, (comb_i[-1] if comb_i else 0) - 1, -1)
-        let start := match comb.getLast? with | none => 0 | some l => l
-        let news := ((rangeFrom start K.nObjects).reverse.filter fun g => !extent.contains g).map
-          fun g => extent ++ [g]
-        .ok (some pc, news)
+/-- `context.extension_i(intent_i, base_objects_i=base)` as the total function the machine takes.
+    `extension_i` cannot raise on a description produced by `intention_i` (it is well-typed:
+    `Lemmas/MVContext.wellTyped_intentionI`, `extensionI_eq`), so the error branch is never taken by the loop. -/
+def extIter (K : MVCtx) (d : Desc) (base : List Nat) : List Nat :=
+  match K.extensionI d (some base) with
+  | .ok e => e
+  | .error _ => []
 
-/-- the worklist: `stack` has the right end of the deque first (`pop()` takes the head,
-    `extend(new)` puts `new` reversed in front) -/
-def cboObjLoop (K : MVCtx) : Nat → List (List Nat) → List PC → Except PyErr (List PC)
-  | _, [], acc => .ok acc.reverse
-  | 0, _ :: _, _ => .error .OutOfFuel
-  | fuel + 1, comb :: rest, acc =>
-    match cboObjStep K comb with
-    | .error e => .error e
-    | .ok (none, _) => cboObjLoop K fuel rest acc
-    | .ok (some pc, news) => cboObjLoop K fuel (news.reverse ++ rest) (pc :: acc)
+/-- the emission trace `(comb_i, extent_i)` of `close_by_one_objectwise` on a many-valued context -/
+def cboObjectwiseTrace (K : MVCtx) (fuel : Nat) : Except PyErr (List (List Nat × List Nat)) :=
+  cboLoop .objectwise K.nObjects K.intentionI K.extIter fuel (cboInit _)
 
-/-- `close_by_one_objectwise(context)` for an `MVContext` -/
-def cboObjectwise (K : MVCtx) (fuel : Nat) : Except PyErr (List PC) := cboObjLoop K fuel [[]] []
-
-/-! ### close_by_one_objectwise_fbarray on a formal context (the binarised one) -/
-
-def band (a b : List Bool) : List Bool := List.zipWith (· && ·) a b
-
-/-- `intention_ba`: `intent = all_attrs.copy(); for g_i in objs: intent &= objs_descriptions[g_i]` -/
-def fbIntent (t : Table) (objs : List Nat) : List Bool :=
-  objs.foldl (fun acc g => band acc (t.row g)) (List.replicate t.width true)
-
-/-- `extension_iter`: `g_i for g_i in base if intent_ba & objs_descriptions[g_i] == intent_ba` -/
-def fbExt (t : Table) (intent : List Bool) (base : List Nat) : List Nat :=
-  base.filter fun g => band intent (t.row g) == intent
-
-/-- `FormalConcept.from_objects(extent_i, context)` (default backend): `(extent_i, intent_i)` -/
-def fcFromObjects (t : Table) (objs : List Nat) : List Nat × List Nat :=
-  let K : Ctx := ⟨.bitarray, t, [], []⟩
-  let intent := K.intentionI objs none
-  (K.extensionI intent none, intent)
-
-def cboFbStep (t : Table) (found : List (List Bool)) (comb : List Nat) :
-    Option ((List Nat × List Nat) × List Bool) × List (List Nat) :=
-  let intent := fbIntent t comb
-  if found.contains intent then (none, [])
-  else
-    let canon : Bool :=
-      match comb.getLast? with
-      | none => true
-      | some last => (fbExt t intent ((List.range last).filter fun g => !comb.contains g)).isEmpty
-    if !canon then (none, [])
-    else
-      let lo := match comb.getLast? with | none => 0 | some l => l + 1
-      let base := (rangeFrom lo t.height).filter fun g => !comb.contains g
-      let extent := comb ++ fbExt t intent base
-      let start := match comb.getLast? with | none => 0 | some l => l
-      let news := ((rangeFrom start t.height).reverse.filter fun g => !extent.contains g).map
-        fun g => extent ++ [g]
-      (some (fcFromObjects t extent, intent), news)
-
-def cboFbLoop (t : Table) : Nat → List (List Nat) → List (List Bool) → List (List Nat × List Nat) →
-    Except PyErr (List (List Nat × List Nat))
-  | _, [], _, acc => .ok acc.reverse
-  | 0, _ :: _, _, _ => .error .OutOfFuel
-  | fuel + 1, comb :: rest, found, acc =>
-    match cboFbStep t found comb with
-    | (none, _) => cboFbLoop t fuel rest found acc
-    | (some (c, intent), news) => cboFbLoop t fuel (news.reverse ++ rest) (intent :: found) (c :: acc)
-
-/-- `close_by_one_objectwise_fbarray(context)` for a `FormalContext`: the `(extent_i, intent_i)` pairs -/
-def cboFb (t : Table) (fuel : Nat) : Except PyErr (List (List Nat × List Nat)) :=
-  cboFbLoop t fuel [[]] [] []
-
-/-! ### close_by_one, many-valued branch -/
-
-def mapFromObjects (K : MVCtx) : List (List Nat) → Except PyErr (List PC)
+/-- `[PatternConcept.from_objects(e, K, is_extent) for e in exts]` -/
+def mapFromObjects (K : MVCtx) (isExtent : Bool) : List (List Nat) → Except PyErr (List PC)
   | [] => .ok []
   | e :: es =>
-    match K.fromObjects e false with
+    match K.fromObjects e isExtent with
     | .error err => .error err
     | .ok pc =>
-      match mapFromObjects K es with
+      match mapFromObjects K isExtent es with
       | .error err => .error err
       | .ok pcs => .ok (pc :: pcs)
+
+/-- `close_by_one_objectwise(context)` for an `MVContext`
+    (every emission is `from_objects(extent_i, context, is_extent=True)`) -/
+def cboObjectwise (K : MVCtx) (fuel : Nat) : Except PyErr (List PC) :=
+  match K.cboObjectwiseTrace fuel with
+  | .error e => .error e
+  | .ok tr => mapFromObjects K true (tr.map (·.2))
+
+/-! ### close_by_one, many-valued branch
+
+  On the binarised context the miner is `close_by_one_objectwise_fbarray` for a `FormalContext`: the
+  model `cboFbarray` of `Model/CbO` (property C02). -/
+
+/-- the binarised `FormalContext` (default backend; attribute names are not part of the property) -/
+def BinCtx.toCtx (Kb : BinCtx) : Ctx := ⟨.bitarray, Kb.table, Kb.objNames, []⟩
 
 /-- which path `close_by_one` takes on a many-valued context -/
 inductive Path where
@@ -220,16 +150,24 @@ def closeByOne (K : MVCtx) (thr : Nat) (fuel : Nat) : Except PyErr (List PC) :=
     match K.binarize with
     | .error e => .error e
     | .ok Kb =>
-      match cboFb Kb.table fuel with
+      match cboFbarray Kb.toCtx fuel with
       | .error e => .error e
-      | .ok cs => mapFromObjects K (cs.map (·.1))     -- c.extent_i
+      | .ok cs => mapFromObjects K false (cs.map (·.extentI))     -- c.extent_i
   | .binTransposed =>
     match K.binarize with
     | .error e => .error e
     | .ok Kb =>
-      match cboFb (tr Kb.table) fuel with
+      match cboFbarray Kb.toCtx.T fuel with
       | .error e => .error e
-      | .ok cs => mapFromObjects K (cs.map (·.2))     -- c.intent_i of the transposed context
+      | .ok cs => mapFromObjects K false (cs.map (·.intentI))     -- c.intent_i of the transposed context
+
+/-- a fuel that suffices for `close_by_one` (proved in `Lemmas/MVLattice`): the worklist machine runs over the
+    objects of the context it is given — the objects, or the binary attributes in the transposed shape -/
+def closeByOneFuel (K : MVCtx) (thr : Nat) : Nat :=
+  match choosePath K thr with
+  | .objectwise => cboFuel K.nObjects
+  | .binDirect => cboFuel K.nObjects
+  | .binTransposed => cboFuel K.nBinAttrs
 
 /-! ### ConceptLattice.from_context(K, algo='CbO') -/
 
